@@ -40,11 +40,11 @@ def handle1 (op : String) (args : List Sexp) : Option String := do
       pure (reply (.ok (select v p c)))
   | "zipper", [vs] =>
       match ← Val.ofSexp vs with
-      | .list vs => pure (reply ((zipper vs).map .list))
+      | .list vs => pure (reply ((zzipper vs).map .list))
       | _ => Option.none
   | "lens", [vs] =>
       match ← Val.ofSexp vs with
-      | .list vs => pure (reply ((lens vs).map fun n => .cell (.int n)))
+      | .list vs => pure (reply ((zlens vs).map fun n => .cell (.int n)))
       | _ => Option.none
   | "aslist", [v] => pure (reply (.ok (.list (asList (← Val.ofSexp v)))))
   | "astuple", [v] => pure (reply (.ok (.tuple (asTuple (← Val.ofSexp v)))))
